@@ -42,6 +42,9 @@ def shapes(tier):
     for nt in range(1, (2 if tier == "quick" else 4) + 1):
         for clean in (True, False):
             out.append({"kind": "cov", "nt": nt, "clean": clean, "tref": "default"})
+    # time input kind chosen against the parity rule of the harness (default: float array for odd, Time for even n)
+    for nt in ((2, 3, 4) if tier == "quick" else (2, 3, 4, 5, 6)):
+        out.append({"kind": "1d", "nt": nt, "clean": True, "tref": "default", "tin": "time" if nt % 2 else "array"})
     return out
 
 
@@ -178,12 +181,13 @@ def run_shape(shape, tier):
 
     def harness():
         inp = _mk_inputs(shape, st)
-        if nt % 2 == 0:
+        as_time = (nt % 2 == 0) if shape.get("tin") is None else shape["tin"] == "time"
+        if as_time:
             # astropy's Time refuses non-finite values, so Time input implies finite times
             for i in range(nt):
                 if ("t", i) in inp["flags"]:
                     core.assume(inp["flags"][("t", i)])
-        d = RVData(inp["t_arr"] if nt % 2 else units.Time(inp["t_arr"], scale="tcb"), inp["rv_q"], inp["rv_err_q"], t_ref=inp["t_ref"], clean=shape["clean"])
+        d = RVData(units.Time(inp["t_arr"], scale="tcb") if as_time else inp["t_arr"], inp["rv_q"], inp["rv_err_q"], t_ref=inp["t_ref"], clean=shape["clean"])
         return inp, d
 
     ex = core.Explorer(max_paths=5000)
@@ -337,7 +341,12 @@ def _check_ivar_cov(sink, path, shape, inp, d, desc):
             cl = z3.And([core.lift(core.sym_sum([cov[k, r] * ivc[r, l] for r in range(n)])) == (1 if k == l else 0) for k in range(n) for l in range(n)] + [iv.unit.same_as(inp["vunit"] ** -2)])
         else:
             cl = z3.BoolVal(False)
-        sink.check(path, "ivar.inverse_covariance", core.SB(cl), site="RVData.ivar", describe=desc)
+        # counterexample models on the scale where absolute tolerances of the code would bite (errors of ~0.1 m/s in km/s)
+        pref = []
+        if ok:
+            from fractions import Fraction as _Fr
+            pref = [L(cov[k, l]) == (_Fr(2, 10 ** 8) if k == l else _Fr(1, 10 ** 8) / (1 + abs(k - l))) for k in range(n) for l in range(n)]
+        sink.check(path, "ivar.inverse_covariance", core.SB(cl), site="RVData.ivar", describe=desc, prefer=pref)
         cc = _cells(cv)
         ok = cc is not None and cc.shape == (n, n)
         cl = z3.And([L(cc[k, l]) == L(cov[k, l]) for k in range(n) for l in range(n)] + [cv.unit.same_as(inp["vunit"] ** 2)]) if ok else z3.BoolVal(False)
@@ -393,6 +402,19 @@ def _check_same(sink, path, shape, d, c, idxs, tag, desc, check_tref):
 # ---------------------------------------------------------------------------------------------
 
 def replay(cand):
+    """a cell whose 'finite' flag is off in the model stands for ANY non-finite float: try NaN, +inf and -inf"""
+    last = None
+    for fill in (float("nan"), float("inf"), float("-inf")):
+        rr = _replay_once(cand, fill)
+        if rr.get("reproduced"):
+            if fill == fill:
+                rr["detail"] = "[non-finite cells = %r] %s" % (fill, rr.get("detail", ""))
+            return rr
+        last = last or rr
+    return last
+
+
+def _replay_once(cand, fill):
     """real RVData on the model's values; oracle: plain-Python reference of the property"""
     import numpy as np
     import astropy.units as u
@@ -411,9 +433,9 @@ def replay(cand):
     vunit = u.def_unit("vsym", scale * u.m / u.s)
     for i in range(nt):
         if not fin.get("t_%d" % i, True):
-            t[i] = np.nan
+            t[i] = fill
         if not fin.get("rv_%d" % i, True):
-            rv[i] = np.inf
+            rv[i] = np.inf if fill != fill else fill
     if shape["kind"] == "1d":
         err = np.array([abs(f(x)) or 1.0 for x in m["err"]])
         for i in range(nt):
@@ -438,7 +460,8 @@ def replay(cand):
         keep = np.isfinite(t) & np.isfinite(rv)
         keep &= np.isfinite(err_q.value) if shape["kind"] == "1d" else np.isfinite(err_q.value).all(axis=0)
     try:
-        d = RVData(t if nt % 2 else Time(t, format="mjd", scale="tcb"), rv * vunit, err_q, t_ref=t_ref, clean=shape["clean"])
+        as_time = (nt % 2 == 0) if shape.get("tin") is None else shape["tin"] == "time"
+        d = RVData(Time(t, format="mjd", scale="tcb") if as_time else t, rv * vunit, err_q, t_ref=t_ref, clean=shape["clean"])
     except Exception as e:
         if not keep.any():
             return {"reproduced": False, "detail": "constructor raised on all-non-finite input (allowed)"}
@@ -504,7 +527,7 @@ def replay(cand):
         else:
             try:
                 iv = d.ivar.to_value(1 / vunit ** 2)
-                if np.all(np.isfinite(ed)) and abs(np.linalg.det(ed)) > 1e-12 and not np.allclose(iv @ ed, np.eye(len(ed)), atol=1e-6):
+                if np.all(np.isfinite(ed)) and np.linalg.cond(ed) < 1e8 and not np.allclose(iv @ ed, np.eye(len(ed)), atol=1e-6):
                     bad.append("ivar is not the inverse covariance")
             except np.linalg.LinAlgError:
                 pass
